@@ -304,20 +304,7 @@ def _sh_dash_in_id(cx, g, field):
             and T.attr_chain(t[2][1]) == "%s.id" % cx.selfname)
 
 
-def flat_atoms(guards):
-    """the guards of an event as a flat conjunction of (term, polarity) atoms: `if a and b` and `if a: if b` alike"""
-    out = []
-    for g in guards:
-        t, pol = T.strip_not(g[0], g[1])
-        if pol and t[0] == "boolop" and t[1] == "and":
-            for x in t[2]:
-                out.append(T.strip_not(x, True))
-        elif not pol and t[0] == "boolop" and t[1] == "or":
-            for x in t[2]:
-                out.append(T.strip_not(x, False))
-        else:
-            out.append((t, pol))
-    return out
+flat_atoms = facts.flat_atoms
 
 
 def set_without_companion(cx, guards, attr, comp):
